@@ -1,6 +1,7 @@
 """C18 - all entry points and configuration layers agree."""
 import io
 import json
+import sys
 import warnings
 
 from common import rng, run_driver
@@ -148,6 +149,46 @@ def run_history(h, vals, initial):
     return req, obs, fails
 
 
+_late_counter = [0]
+
+
+def late_registration(mode, reprs_before):
+    """pretty_repr on a class whose printer is registered only AFTER repr() was already used
+    [reprs_before] times (directly / for a base class / by name): from then on repr() is pformat()"""
+    import prettyprinter as P
+    from prettyprinter import register_pretty, pretty_call, pretty_repr
+    _late_counter[0] += 1
+    base = type('LateBase%d' % _late_counter[0], (), {'__init__': lambda self, x: setattr(self, 'x', x)})
+    cls = type('Late%d' % _late_counter[0], (base,), {})
+    for c in (base, cls):
+        c.__module__ = 'c18'
+        c.__qualname__ = c.__name__
+        setattr(sys.modules[__name__], c.__name__, c)
+    cls.__repr__ = pretty_repr
+    objs = [cls([1, 2]), cls('y')]
+    with warnings.catch_warnings():
+        warnings.simplefilter('ignore')
+        for _ in range(reprs_before):
+            repr(objs[0])
+
+        def printer(value, ctx):
+            return pretty_call(ctx, type(value), value.x)
+        if mode == 'direct':
+            register_pretty(cls)(printer)
+        elif mode == 'base':
+            register_pretty(base)(printer)
+        elif mode == 'name':
+            register_pretty('c18.' + cls.__name__)(printer)
+        else:
+            register_pretty('c18.' + base.__name__)(printer)
+        for o in objs:
+            got, want = repr(o), P.pformat(o)
+            if got != want or not want.startswith('c18.Late'):
+                return 'pretty_repr after a %s registration that followed %d repr() calls: %r, pformat gives %r' % (
+                    mode, reprs_before, got[:120], want[:120])
+    return None
+
+
 def main(tier):
     run = Run(PROP, tier)
     built = run.build()
@@ -182,6 +223,15 @@ def main(tier):
                                        'history': h, 'initial': initial})
         finally:
             P.set_default_config(**{k: initial[k] for k in SETTABLE})
+        nlate = 0
+        for mode in ('direct', 'base', 'name', 'basename'):
+            for k in (0, 1, 3):
+                nlate += 1
+                run.count(1)
+                msg = late_registration(mode, k)
+                if msg and len(run.violations) < 5:
+                    run.violation({'kind': 'late-registration', 'what': msg, 'mode': mode, 'reprs_before': k})
+        run.coverage['late_registration_cases'] = nlate
         out = run_driver(reqs)
         for (h, obs), line in zip(allobs, out):
             model = line.split(' ; ') if line else []
@@ -215,7 +265,8 @@ def main(tier):
             'produce exactly the text of python_to_sdocs+default renderer at the effective settings (+ end); '
             'get_default_config() after each set and the effective configuration are compared with the extracted '
             'model run_cfg instantiated with the plumbing read off the source. non-trivial = histories with at least '
-            'one effective set followed by a call')
+            'one effective set followed by a call. Also: classes using pretty_repr whose printer is registered (directly, for '
+            'a base class, by name) only after repr() was already used 0, 1 or 3 times.')
         run.sample({'history': hist[0], 'impl_observations': allobs[0][1], 'model': out[0]})
     return run.finish()
 
@@ -223,6 +274,10 @@ def main(tier):
 def replay(path):
     with open(path) as f:
         p = json.load(f)
+    if p.get('kind') == 'late-registration':
+        msg = late_registration(p['mode'], p['reprs_before'])
+        print(msg)
+        return 1 if msg else 0
     if 'history' not in p:
         print(json.dumps(p, indent=1)[:3000])
         return 1
